@@ -196,11 +196,14 @@ def _time_token(w: dict, t0: list[int], t1: list[int]) -> dict:
     return w
 
 
+_by_id: dict[int, Rec] = {}
+
+
 def _rec_for(gw: Gateway) -> Rec:
-    rec = gw.__dict__.get("_verif_rec")
-    if rec is None or rec.test != _current["test"]:
-        rec = Rec(gw)
-        gw.__dict__["_verif_rec"] = rec
+    rec = _by_id.get(id(gw))
+    if rec is None or rec.gw is not gw or rec.test != _current["test"]:
+        rec = Rec(gw)          # (the record keeps the gateway alive, so its id is not reused within the session)
+        _by_id[id(gw)] = rec
         _recs.append(rec)
     return rec
 
